@@ -64,6 +64,216 @@ def SkippedLine (l : Str) : Prop :=
   startsWith l (cs "M  CHG") = false ∧ startsWith l (cs "M  RAD") = false ∧
   startsWith l (cs "M  ISO") = false ∧ l ≠ cs "M  END"
 
+namespace V2F
+open V2000 LineM
+
+/-! ### §1 lists and slices -/
+
+theorem sliceInt_nat {α} (l : List α) (a b : Int) (a' b' : Nat) (ha : a = a') (hb : b = b')
+    (ha' : a' ≤ l.length) (hb' : b' ≤ l.length) : sliceInt l a b = (l.drop a').take (b' - a') := by
+  subst ha hb
+  unfold sliceInt
+  have h1 : ¬ ((a' : Int) < 0) := by omega
+  have h2 : ¬ ((b' : Int) < 0) := by omega
+  simp only [if_neg h1, if_neg h2]
+  have e1 : (min (a' : Int) (l.length : Int)).toNat = a' := by omega
+  have e2 : (min (b' : Int) (l.length : Int)).toNat = b' := by omega
+  rw [e1, e2]
+
+theorem mapM_map_ok {α β γ} (h : α → β) (f : β → PyM γ) (g : α → γ) : ∀ (l : List α),
+    (∀ x ∈ l, f (h x) = .ok (g x)) → (l.map h).mapM f = .ok (l.map g)
+  | [], _ => rfl
+  | x :: l, hx => by
+    rw [List.map_cons, List.mapM_cons, hx x (by simp), mapM_map_ok h f g l (fun y hy => hx y (by simp [hy]))]
+    rfl
+
+/-! ### §2 one atom line -/
+
+theorem stripSp_sym (s : Str) (hne : s ≠ []) (h : ' ' ∉ s) (k : Nat) :
+    stripSp (s ++ List.replicate k ' ') = s := by
+  have hall : ∀ c ∈ s, (c == ' ') = false := by
+    intro c hc
+    cases hcc : c == ' ' with
+    | false => rfl
+    | true => rw [beq_iff_eq] at hcc; subst hcc; exact absurd hc h
+  unfold stripSp
+  have h1 : (s ++ List.replicate k ' ').dropWhile (· == ' ') = s ++ List.replicate k ' ' := by
+    cases s with
+    | nil => exact absurd rfl hne
+    | cons c r =>
+      simp only [List.cons_append, List.dropWhile, hall c (by simp)]
+  rw [h1]
+  unfold dropWhileEnd
+  rw [List.reverse_append, List.reverse_replicate, dropWhile_replicate_append (· == ' ') (by decide),
+    dropWhile_of_all _ (by intro c hc; exact hall c (List.mem_reverse.1 hc)), List.reverse_reverse]
+
+theorem toFloat_field (f : Str) (h : (stripSp f).isEmpty ∨ pyFloatOk f = true) :
+    toFloatV2000 f = .ok (v2Coord f) := by
+  unfold toFloatV2000 v2Coord
+  cases he : (stripSp f).isEmpty with
+  | true => simp
+  | false =>
+    rw [he] at h
+    have : pyFloatOk f = true := by simpa using h
+    simp [pyFloat, this]
+
+theorem parseAtomLine (a : V2Atom) (h : a.Ok) : parseAtomLineV2000 a.line = .ok a.record := by
+  obtain ⟨⟨lx, hx⟩, ⟨ly, hy⟩, ⟨lz, hz⟩, ⟨ls, hsne, hsp⟩, hzz, hc⟩ := h
+  have lS : (a.sym ++ List.replicate (3 - a.sym.length) ' ').length = 3 := by
+    simp only [List.length_append, List.length_replicate]; omega
+  have l0 : (cs " 0").length = 2 := rfl
+  have s1 : slice a.line 0 10 = a.fx :=
+    slice_mid _ [] a.fx (a.fy ++ a.fz ++ ' ' :: (a.sym ++ List.replicate (3 - a.sym.length) ' ') ++ cs " 0"
+      ++ pad3 a.code ++ a.tail) 0 10 (by simp [V2Atom.line]) rfl (by omega)
+  have s2 : slice a.line 10 20 = a.fy :=
+    slice_mid _ a.fx a.fy (a.fz ++ ' ' :: (a.sym ++ List.replicate (3 - a.sym.length) ' ') ++ cs " 0"
+      ++ pad3 a.code ++ a.tail) 10 20 (by simp [V2Atom.line]) lx (by omega)
+  have s3 : slice a.line 20 30 = a.fz :=
+    slice_mid _ (a.fx ++ a.fy) a.fz (' ' :: (a.sym ++ List.replicate (3 - a.sym.length) ' ') ++ cs " 0"
+      ++ pad3 a.code ++ a.tail) 20 30 (by simp [V2Atom.line]) (by rw [List.length_append]; omega) (by omega)
+  have s4 : slice a.line 31 34 = a.sym ++ List.replicate (3 - a.sym.length) ' ' :=
+    slice_mid _ (a.fx ++ a.fy ++ a.fz ++ [' ']) (a.sym ++ List.replicate (3 - a.sym.length) ' ')
+      (cs " 0" ++ pad3 a.code ++ a.tail) 31 34 (by simp [V2Atom.line])
+      (by simp only [List.length_append, List.length_singleton]; omega) (by rw [lS])
+  have s5 : slice a.line 36 39 = pad3 a.code :=
+    slice_mid _ (a.fx ++ a.fy ++ a.fz ++ ' ' :: (a.sym ++ List.replicate (3 - a.sym.length) ' ') ++ cs " 0")
+      (pad3 a.code) a.tail 36 39 (by simp [V2Atom.line])
+      (by simp only [List.length_append, List.length_cons, lS, l0]; omega) (by rw [pad3_length _ hc])
+  unfold parseAtomLineV2000 V2Atom.record
+  simp only [s1, s2, s3, s4, s5, stripSp_sym _ hsne hsp, toFloat_field _ hx, toFloat_field _ hy,
+    toFloat_field _ hz, toIntV2000_pad3 _ hc]
+  rcases hd : detectHydrogenIsotopes a.sym with ⟨sym, iso⟩
+  rw [hd] at hzz
+  simp only [hzz, ok_bind]
+  rcases hcc : chargeCode a.code with ⟨chg, rad⟩
+  by_cases hi : iso = 0 <;> simp [hi, pure, Except.pure]
+
+/-! ### §3 the atom block -/
+
+/-- the atom dictionary the atom block yields -/
+abbrev atomDict (atoms : List V2Atom) : List (Int × Atom) :=
+  atoms.zipIdx.map fun (a, i) => ((i : Int), a.record)
+
+theorem atomBlock (atoms : List V2Atom) (h : ∀ a ∈ atoms, a.Ok) :
+    ((atoms.map V2Atom.line).zipIdx.mapM fun (l, i) => do
+      let a ← parseAtomLineV2000 l
+      pure ((i : Int), a)) = .ok (atomDict atoms) := by
+  rw [List.zipIdx_map]
+  apply mapM_map_ok
+  rintro ⟨a, i⟩ hm
+  have := parseAtomLine a (h a (List.fst_mem_of_mem_zipIdx hm))
+  simp only [Prod.map, id, this, ok_bind]
+  rfl
+
+/-! ### §4 the bond block -/
+
+theorem alookup_zipIdx : ∀ (atoms : List V2Atom) (n : Nat) (k : Int), (n : Int) ≤ k → k < n + atoms.length →
+    (alookup k ((atoms.zipIdx n).map fun (a, i) => ((i : Int), a.record))).isSome = true
+  | [], n, k, h1, h2 => by simp at h2; omega
+  | a :: l, n, k, h1, h2 => by
+    rw [List.zipIdx_cons, List.map_cons]
+    simp only [alookup]
+    by_cases hk : (n : Int) = k
+    · simp [hk]
+    · have : ((n : Int) == k) = false := by simpa using hk
+      simp only [this, Bool.false_eq_true, if_false]
+      apply alookup_zipIdx l (n + 1) k
+      · omega
+      · simp only [List.length_cons] at h2; omega
+
+theorem parseBondLine (b : V2Bond) (atoms0 : List (Int × Atom))
+    (ha : (intRepr b.a).length ≤ 3) (hb : (intRepr b.b).length ≤ 3) (ht : (intRepr b.t).length ≤ 3)
+    (ea : (alookup (b.a - 1) atoms0).isSome = true) (eb : (alookup (b.b - 1) atoms0).isSome = true) :
+    parseBondLineV2000 b.line atoms0 = .ok ((b.a - 1, b.b - 1), { btype := some b.t }) := by
+  have s1 : slice b.line 0 3 = pad3 b.a :=
+    slice_mid _ [] (pad3 b.a) (pad3 b.b ++ pad3 b.t ++ b.tail) 0 3 (by simp [V2Bond.line]) rfl
+      (by rw [pad3_length _ ha])
+  have s2 : slice b.line 3 6 = pad3 b.b :=
+    slice_mid _ (pad3 b.a) (pad3 b.b) (pad3 b.t ++ b.tail) 3 6 (by simp [V2Bond.line]) (pad3_length _ ha)
+      (by rw [pad3_length _ hb])
+  have s3 : slice b.line 6 9 = pad3 b.t :=
+    slice_mid _ (pad3 b.a ++ pad3 b.b) (pad3 b.t) b.tail 6 9 (by simp [V2Bond.line])
+      (by rw [List.length_append, pad3_length _ ha, pad3_length _ hb]) (by rw [pad3_length _ ht])
+  have na : (alookup (b.a - 1) atoms0).isNone = false := by
+    cases h : alookup (b.a - 1) atoms0 with
+    | none => rw [h] at ea; cases ea
+    | some a => rfl
+  have nb : (alookup (b.b - 1) atoms0).isNone = false := by
+    cases h : alookup (b.b - 1) atoms0 with
+    | none => rw [h] at eb; cases eb
+    | some a => rfl
+  unfold parseBondLineV2000
+  simp only [s1, s2, s3, toIntV2000_pad3 _ ha, toIntV2000_pad3 _ hb, toIntV2000_pad3 _ ht, ok_bind, na, nb,
+    Bool.false_eq_true, if_false]
+  rfl
+
+/-! ### §5 the scan starts inside the bond / list lines -/
+
+theorem rendersAll_skip (atoms0 : List (Int × Atom)) (bl : List BlockLine) (lines : List Str)
+    (h : RendersAll atoms0 bl lines) : ∀ (sk : List Str), (∀ l ∈ sk, SkippedLine l) →
+    RendersAll atoms0 (List.replicate sk.length .other ++ bl) (sk ++ lines)
+  | [], _ => h
+  | l :: sk, hs =>
+    RendersAll.cons (hs l (by simp)) (rendersAll_skip atoms0 bl lines h sk (fun x hx => hs x (by simp [hx])))
+
+theorem allAssignments_skip (k : Nat) (bl : List BlockLine) :
+    allAssignments (List.replicate k .other ++ bl) = allAssignments bl := by
+  induction k with
+  | zero => rfl
+  | succ k ih =>
+    rw [List.replicate_succ, List.cons_append]
+    simp [allAssignments]
+
+theorem hasChgOrRad_skip (k : Nat) (bl : List BlockLine) :
+    hasChgOrRad (List.replicate k .other ++ bl) = hasChgOrRad bl := by
+  induction k with
+  | zero => rfl
+  | succ k ih =>
+    rw [List.replicate_succ, List.cons_append]
+    simp [hasChgOrRad]
+
+theorem attrBlock (atoms0 : List (Int × Atom)) (bl : List BlockLine) (sk blockLines tail : List Str)
+    (hs : ∀ l ∈ sk, SkippedLine l) (h : RendersAll atoms0 bl blockLines) :
+    parseAttributeBlock (sk ++ blockLines ++ cs "M  END" :: tail) atoms0 = .ok (applyBlock bl atoms0) := by
+  rw [parseAttributeBlock_spec atoms0 _ _ tail (rendersAll_skip atoms0 bl blockLines h sk hs)]
+  simp only [allAssignments_skip, hasChgOrRad_skip]
+  rfl
+
+/-! ### §6 assembly -/
+
+theorem graphAttributesV2000_eq (lines : List Str) : graphAttributesV2000 lines =
+    getIdx lines 3 >>= fun l3 => toIntV2000 (slice l3 0 3) >>= fun atomCount =>
+    toIntV2000 (slice l3 3 6) >>= fun bondCount => toIntV2000 (slice l3 6 9) >>= fun listsCount =>
+    ((sliceInt lines 4 (4 + atomCount)).zipIdx.mapM fun (l, i) => do
+      let a ← parseAtomLineV2000 l
+      pure ((i : Int), a)) >>= fun atoms0 =>
+    ((sliceInt lines (4 + atomCount) (4 + atomCount + bondCount)).mapM fun l => parseBondLineV2000 l atoms0)
+      >>= fun bondList =>
+    parseAttributeBlock (sliceInt lines (4 + atomCount + listsCount) lines.length) atoms0 >>= fun atoms =>
+    pure (atoms, bondList.foldl (fun d (k, b) => ainsert k b d) []) := rfl
+
+/-- the three windows of the line list -/
+theorem windows (h0 h1 h2 c : Str) (A B Ls R : List Str) :
+    let L := h0 :: h1 :: h2 :: c :: (A ++ B ++ Ls ++ R)
+    sliceInt L 4 (4 + (A.length : Int)) = A ∧
+    sliceInt L (4 + (A.length : Int)) (4 + (A.length : Int) + (B.length : Int)) = B ∧
+    sliceInt L (4 + (A.length : Int) + (Ls.length : Int)) L.length = (B ++ Ls).drop Ls.length ++ R := by
+  intro L
+  have hL : L.length = 4 + A.length + B.length + Ls.length + R.length := by
+    simp only [L, List.length_cons, List.length_append]; omega
+  have hd : L.drop 4 = A ++ (B ++ (Ls ++ R)) := by simp [L]
+  refine ⟨?_, ?_, ?_⟩
+  · rw [sliceInt_nat L 4 (4 + (A.length : Int)) 4 (4 + A.length) (by omega) (by omega) (by omega) (by omega), hd,
+      Nat.add_sub_cancel_left, List.take_left]
+  · rw [sliceInt_nat L (4 + (A.length : Int)) (4 + (A.length : Int) + (B.length : Int)) (4 + A.length) (4 + A.length + B.length) (by omega) (by omega) (by omega) (by omega),
+      ← List.drop_drop, hd, List.drop_left, Nat.add_sub_cancel_left, List.take_left]
+  · rw [sliceInt_nat L (4 + (A.length : Int) + (Ls.length : Int)) L.length (4 + A.length + Ls.length) L.length (by omega) rfl (by omega) (by omega),
+      List.take_of_length_le (by rw [List.length_drop]; omega), Nat.add_assoc, ← List.drop_drop, hd,
+      ← List.drop_drop, List.drop_left, ← List.append_assoc,
+      List.drop_append_of_le_length (by rw [List.length_append]; omega)]
+
+end V2F
+
 /-- **The V2000 connection table.** -/
 theorem graphAttributesV2000_spec (h0 h1 h2 countsTail : Str) (atoms : List V2Atom) (bonds : List V2Bond)
     (lists : List Str) (bl : List BlockLine) (blockLines : List Str) (tail : List Str)
@@ -79,6 +289,45 @@ theorem graphAttributesV2000_spec (h0 h1 h2 countsTail : Str) (atoms : List V2At
           (atoms.map V2Atom.line ++ bonds.map V2Bond.line ++ lists ++ blockLines ++ cs "M  END" :: tail)) =
       .ok (applyBlock bl (atoms.zipIdx.map fun (a, i) => ((i : Int), a.record)),
            bonds.foldl (fun d b => ainsert (b.a - 1, b.b - 1) ({ btype := some b.t } : Bond) d) []) := by
-  sorry
+  have w := V2F.windows h0 h1 h2 (pad3 atoms.length ++ pad3 bonds.length ++ pad3 lists.length ++ countsTail)
+    (atoms.map V2Atom.line) (bonds.map V2Bond.line) lists (blockLines ++ cs "M  END" :: tail)
+  simp only [List.length_map] at w
+  obtain ⟨w1, w2, w3⟩ := w
+  -- the counts line
+  have c1 : slice (pad3 atoms.length ++ pad3 bonds.length ++ pad3 lists.length ++ countsTail) 0 3 = pad3 atoms.length :=
+    V2000.slice_mid _ [] (pad3 atoms.length) (pad3 bonds.length ++ pad3 lists.length ++ countsTail) 0 3 (by simp) rfl
+      (by rw [V2000.pad3_length _ hna])
+  have c2 : slice (pad3 atoms.length ++ pad3 bonds.length ++ pad3 lists.length ++ countsTail) 3 6 = pad3 bonds.length :=
+    V2000.slice_mid _ (pad3 atoms.length) (pad3 bonds.length) (pad3 lists.length ++ countsTail) 3 6 (by simp)
+      (V2000.pad3_length _ hna) (by rw [V2000.pad3_length _ hnb])
+  have c3 : slice (pad3 atoms.length ++ pad3 bonds.length ++ pad3 lists.length ++ countsTail) 6 9 = pad3 lists.length :=
+    V2000.slice_mid _ (pad3 atoms.length ++ pad3 bonds.length) (pad3 lists.length) countsTail 6 9 (by simp)
+      (by rw [List.length_append, V2000.pad3_length _ hna, V2000.pad3_length _ hnb]) (by rw [V2000.pad3_length _ hnl])
+  -- the bond block
+  have hb : ((bonds.map V2Bond.line).mapM fun l => parseBondLineV2000 l (V2F.atomDict atoms)) =
+      .ok (bonds.map fun b => ((b.a - 1, b.b - 1), ({ btype := some b.t } : Bond))) := by
+    apply V2F.mapM_map_ok
+    intro b hm
+    obtain ⟨ha, hb, ht, a1, a2, b1, b2⟩ := hbonds b hm
+    exact V2F.parseBondLine b _ ha hb ht
+      (V2F.alookup_zipIdx atoms 0 (b.a - 1) (by omega) (by omega))
+      (V2F.alookup_zipIdx atoms 0 (b.b - 1) (by omega) (by omega))
+  -- the attribute block
+  have hsk : ∀ l ∈ (bonds.map V2Bond.line ++ lists).drop lists.length, SkippedLine l := by
+    intro l hl
+    rcases List.mem_append.1 (List.mem_of_mem_drop hl) with h | h
+    · obtain ⟨b, hb, rfl⟩ := List.mem_map.1 h
+      exact hskipB b hb
+    · exact hskipL l h
+  have ha := V2F.attrBlock (V2F.atomDict atoms) bl _ blockLines tail hsk hblock
+  rw [List.append_assoc _ blockLines, V2F.graphAttributesV2000_eq]
+  have g3 : getIdx (h0 :: h1 :: h2 :: (pad3 atoms.length ++ pad3 bonds.length ++ pad3 lists.length ++ countsTail) ::
+          (atoms.map V2Atom.line ++ bonds.map V2Bond.line ++ lists ++ (blockLines ++ cs "M  END" :: tail))) 3 =
+      .ok (pad3 atoms.length ++ pad3 bonds.length ++ pad3 lists.length ++ countsTail) := rfl
+  rw [List.append_assoc] at ha
+  rw [g3, LineM.ok_bind, c1, toIntV2000_pad3 _ hna, LineM.ok_bind, c2, toIntV2000_pad3 _ hnb, LineM.ok_bind,
+    c3, toIntV2000_pad3 _ hnl, LineM.ok_bind, w1, V2F.atomBlock atoms hatoms, LineM.ok_bind, w2, hb, LineM.ok_bind,
+    w3, ha, LineM.ok_bind, List.foldl_map]
+  rfl
 
 end Tucan
